@@ -864,6 +864,7 @@ def module_model(name):
             'inf': __import__('pyvc.values', fromlist=['INF']).INF, 'abs': Builtin(_abs, 'np.abs'),
             # dt is modelled as a real number (complex time steps are outside the modelled domain)
             'iscomplex': Builtin(lambda I, x: False, 'np.iscomplex'),
+            'promote_types': Builtin(lambda I, a, b: a, 'np.promote_types'),   # dtype bookkeeping is not modelled
         })
     if name == 'bisect':
         return ModuleVal('bisect', {'bisect': Builtin(bisect_right, 'bisect.bisect'),
